@@ -98,6 +98,110 @@ def rule_i2(ctx):
     ctx.check(ok, "I3-method-bits", f"{EH}:<module>", "three distinct single-bit flags", f"{EH}:0", f"method flags {vals}", "distinct powers of two")
 
 
+def rule_i7(ctx):
+    """Memoisation in the insertion helpers: a dict memo must be keyed by every parameter the computation reads (the grammar!), and lru_cache'd helpers must not hand out
+    tree nodes they build (shared ids).  Expected number of dict memos on today's tree: zero - the rule is armed for the day one is added."""
+    from ..memo import check_memo_keys, cached_functions
+
+    n = check_memo_keys(ctx, "I7-memo-key", [EH], min_sites=0)
+    ctx.inventory["existential_helpers_dict_memos"] = n
+    m = ctx.repo.module(EH, "C13.I7")
+    k = 0
+    for q, fn in cached_functions(m):
+        k += 1
+        params = [a.arg for a in fn.args.args]
+        ctx.ok("I7-memo-key", f"{EH}:{q}", "lru_cache keyed by all parameters", site(fn), f"parameters {params}")
+    ctx.inventory["existential_helpers_lru_caches"] = k
+
+
+def rule_i8(ctx):
+    """find_higher_up_insertion_points: an insertion point may only move up through nodes with a single child - replacing a node that has further children by a connecting
+    tree discards those children (original nodes of the host are lost, open leaves included: they carry identities that constraints refer to)."""
+    f = ctx.repo.func(EH, "find_higher_up_insertion_points", "C13.I8")
+    c = f"{EH}:find_higher_up_insertion_points"
+    loops = [n for n in walk_local(f) if isinstance(n, ast.While)]
+    if len(loops) != 1 or src(loops[0].test) != "p":
+        raise Unrecognised("C13.I8", c, "upward walk `while p:` not found")
+    loop = loops[0]
+    ups = [n for n in loop.body if isinstance(n, ast.Assign) and src(n.targets[0]) == "p" and src(n.value) == "p[:-1]"]
+    if len(ups) != 1:
+        raise Unrecognised("C13.I8", c, "`p = p[:-1]` step not found")
+    guard = "len(tree.get_subtree(p).children or []) > 1"
+    sinks = [n for n in ast.walk(loop) if (isinstance(n, ast.Assign) and isinstance(n.targets[0], ast.Subscript) and src(n.targets[0].value) == "result") or isinstance(n, ast.Continue)]
+    if len(sinks) < 2:
+        raise Unrecognised("C13.I8", c, "insertion-point store / continue not found")
+    n_ok = 0
+    for sk in sinks:
+        fs = facts(sk)
+        if has_fact(fs, guard, False):
+            n_ok += 1
+            ctx.ok("I8-single-child-chain", c, f"{' '.join(src(sk).split())[:40]} only past single-child nodes", site(sk), f"not ({guard})")
+        else:
+            others = [x for x in fs if "children" in x.text]
+            exits = [n for n in loop.body if isinstance(n, ast.If) and any(isinstance(b, ast.Return) for b in n.body)]
+            if not others and not exits:
+                ctx.viol("I8-single-child-chain", c, f"{' '.join(src(sk).split())[:40]} only past single-child nodes", site(sk),
+                         "the upward walk no longer stops at a node with more than one child: a connecting tree inserted there replaces the node and discards its other children")
+            else:
+                ctx.shape(False, "I8-single-child-chain", c, f"{" ".join(src(sk).split())[:40]} only past single-child nodes", site(sk),
+                          f"the stop condition of the upward walk is not `{guard}` (found {[str(x)[:80] for x in others] or [' '.join(src(e.test).split())[:80] for e in exits]}): whether every "
+                          "sibling of the path survives cannot be decided from its shape")
+    # the guard is evaluated on the NEW p (after the step), before anything else in the iteration
+    idx = loop.body.index(ups[0])
+    nxt = loop.body[idx + 1] if idx + 1 < len(loop.body) else None
+    ok = isinstance(nxt, ast.If) and " ".join(src(nxt.test).split()) == guard and any(isinstance(b, ast.Return) for b in nxt.body)
+    if n_ok == len(sinks):
+        ctx.check(ok, "I8-single-child-chain", c, "guard evaluated right after the step", site(ups[0]), "the single-child guard is not evaluated on the new position first", "first statement after the step")
+
+
+def rule_i9(ctx):
+    """connect_trees: the result keeps (a) the inserted tree by identity - it is placed into the connecting tree on every path - and (b) the id of the host node that the
+    connecting tree replaces."""
+    f = ctx.repo.func(EH, "connect_trees", "C13.I9")
+    c = f"{EH}:connect_trees"
+    params = [a.arg for a in f.args.args]
+    add, host = params[0], params[1]
+    app = [x for x in calls_in(f) if isinstance(x.func, ast.Attribute) and x.func.attr == "append" and src(x.func.value) == "result"]
+    if len(app) != 1 or not isinstance(app[0].args[0], ast.Name):
+        raise Unrecognised("C13.I9", c, "result.append(<name>) not found")
+
+    def defs(name):
+        return [n for n in walk_local(f) if isinstance(n, ast.Assign) and len(n.targets) == 1 and src(n.targets[0]) == name]
+
+    def branches(e):
+        if isinstance(e, ast.IfExp):
+            return branches(e.body) + branches(e.orelse)
+        return [e]
+
+    def is_replace(e, recv=None):
+        return isinstance(e, ast.Call) and isinstance(e.func, ast.Attribute) and e.func.attr == "replace_path" and len(e.args) == 2 and (recv is None or src(e.func.value) == recv)
+
+    nt = defs(app[0].args[0].id)
+    if len(nt) != 1 or not is_replace(nt[0].value, host) or not isinstance(nt[0].value.args[1], ast.Name):
+        raise Unrecognised("C13.I9", c, f"the appended tree is not `{host}.replace_path(path, <connecting tree>)`")
+    ctx.ok("I9-connect-keeps-identities", c, "result = host with the instantiated connecting tree at the insertion path", site(nt[0]), " ".join(src(nt[0].value).split())[:80])
+    inst = defs(nt[0].value.args[1].id)
+    if len(inst) != 1:
+        raise Unrecognised("C13.I9", c, "definition of the instantiated connecting tree not found")
+    bad = [b for b in branches(inst[0].value) if not (is_replace(b) and src(b.args[1]) == add)]
+    if bad and all(isinstance(b, ast.Name) for b in bad):
+        ctx.viol("I9-connect-keeps-identities", c, f"`{add}` placed into the connecting tree on every path", site(bad[0]),
+                 f"on some path the connecting tree is used as it is (`{src(bad[0])}`) instead of `.replace_path(leaf, {add})`: the node `{add}` itself (its id, which the "
+                 "constraint refers to) is not part of the result even when it is a bare open leaf")
+    elif bad:
+        raise Unrecognised("C13.I9", c, f"instantiation `{' '.join(src(bad[0]).split())[:60]}` not understood")
+    else:
+        ctx.ok("I9-connect-keeps-identities", c, f"`{add}` placed into the connecting tree on every path", site(inst[0]), "replace_path(leaf, tree_to_add)")
+    recv = {src(b.func.value) for b in branches(inst[0].value) if is_replace(b)}
+    if len(recv) != 1:
+        raise Unrecognised("C13.I9", c, "receiver of the instantiation not unique")
+    wid = defs(recv.pop())
+    ok = len(wid) == 1 and isinstance(wid[0].value, ast.Call) and call_name(wid[0].value) == "DerivationTree" and len(wid[0].value.args) == 3 \
+        and " ".join(src(wid[0].value.args[2]).split()) == f"{host}.get_subtree(insertion_path).id"
+    ctx.check(ok, "I9-connect-keeps-identities", c, "connecting tree takes over the id of the host node it replaces", site(wid[0] if wid else f),
+              "the connecting tree's root does not get the id of the replaced host node: that original node disappears from the result", "id of parent_tree.get_subtree(insertion_path)")
+
+
 def rule_i4(ctx):
     """compute_context_additions keeps only candidates that retain EVERY node of the host tree (the re-insertion it relies on is known to lose nodes)."""
     f = ctx.repo.func(EH, "compute_context_additions", "C13.I4")
@@ -175,6 +279,9 @@ def run(ctx) -> str:
 
     # the containment gate of insert_tree rests on DerivationTree.is_prefix
     ctx.guarded("I6", lambda: c16.rule_h2(ctx))
+    ctx.guarded("I7", lambda: rule_i7(ctx))
+    ctx.guarded("I8", lambda: rule_i8(ctx))
+    ctx.guarded("I9", lambda: rule_i9(ctx))
     ctx.guarded("I4", lambda: rule_i4(ctx))
     ctx.guarded("I5", lambda: rule_i5(ctx))
     ctx.guarded("I1", lambda: rule_i1(ctx))
